@@ -3,52 +3,109 @@ import Dnp3.Proofs.Database
 # Outstation database — component-level theorems behind C03, C11 and C13
 
 Model: `Dnp3.Model.Database` (event buffer + static database + response writing of
-`outstation/database/**`), tied to the code by the `db` correspondence engine.
-All statements quantify over EVERY database state / operation / operation sequence.
+`outstation/database/**` for all eight point types), tied to the code by the generated per-type tables
+(`Dnp3.Gen.DbT`, well-formedness: §Tables below) and by the `db` correspondence engine.
+All statements quantify over EVERY database state / operation / operation sequence, every point type
+(`PtType` = the generated enumeration of `enum Event`), every event-buffer configuration
+(`ev : TyVec Nat`, the per-type maxima of `EventBufferConfig`) and class-zero configuration.
 
-Operations (`DbOp`): add, update, select (one READ header), write (cap), unsol (classes, cap),
-clear (= confirm: `clear_written_events`), reset.  `run db ops` folds `step`.
+Operations (`DbOp`, the session model's vocabulary): add, update, select (one READ header), write (cap),
+unsol (classes, cap), clear (= confirm: `clear_written_events`), reset; `run db ops` folds `step`.
+`DbOpX` = `DbOp` + `addCfg` (any configured static / event variation and dead-band) + `updateOpt` (any
+measurement of any type, any `UpdateOptions`); `runX db ops` folds `stepX`.  The invariants are stated
+over `runX` (they specialise to `run`: `runX_base`).
 -/
 namespace Dnp3.Props.Db
 open Dnp3 Dnp3.DbM Dnp3.DbProofs
+
+/-! ## Tables — the generated per-type tables are well formed
+
+`Dnp3.Gen.DbT` is re-extracted from `outstation/database/**` on every run; the model's per-type
+dispatch goes through it, and these statements are what the proofs below rest on.  A slip in one row
+of the source (a counter slot, a type left out of a list, a READ arm that drops its range) breaks one
+of them before any case runs. -/
+
+/-- every `impl Insertable for measurement::X` reads its own maximum and its own counter, changes its own
+    counter, and names its own `Event` variant -/
+theorem insertable_slots_own (t : PtType) : Gen.DbT.insertable t = ⟨t, t, t, t, t, t, t⟩ :=
+  DbTables.insertable_own t
+
+/-- `TypeCounter::modify` and the `match` of `Counters::decrement` pick the counter of the record's type -/
+theorem counter_dispatch_own (t : PtType) : Gen.DbT.typeCounterModify t = t ∧ Gen.DbT.countersDecrement t = t :=
+  ⟨DbTables.typeCounterModify_own t, DbTables.countersDecrement_own t⟩
+
+/-- `EventBuffer::is_any_full` asks every type exactly once; `EventBufferConfig::max_events` (the capacity
+    of the shared event list) adds every type's maximum exactly once -/
+theorem is_any_full_each_type_once (t : PtType) :
+    Gen.DbT.isAnyFull.count t = 1 ∧ Gen.DbT.maxEventsSum.count t = 1 :=
+  ⟨DbTables.isAnyFull_each_once t, DbTables.maxEventsSum_each_once t⟩
+
+/-- the header variants of `select_by_header`, `StaticDatabase::select`, `write_range` and the accessors of
+    `impl Updatable` lead to the type they are named after; `select_class_zero` visits every type once, in
+    the order of `enum Event` -/
+theorem header_dispatch_own (t : PtType) :
+    Gen.DbT.eventHdrTy t = t ∧ Gen.DbT.staticHdrTy t = t ∧ Gen.DbT.writeRangeTy t = t ∧
+    Gen.DbT.updatable t = ⟨t, t, t, decide (t ≠ .octetString), t⟩ ∧ Gen.DbT.classZeroOrder = Gen.DbT.Ty.all :=
+  ⟨DbTables.eventHdrTy_own t, DbTables.staticHdrTy_own t, DbTables.writeRangeTy_own t, DbTables.updatable_own t,
+   DbTables.classZeroOrder_all⟩
+
+/-- every arm of `ReadHeader::from_all_objects / from_count / from_range` maps the variation to the type
+    whose group it is, requests exactly that variation (none for variation 0) and keeps the request's
+    count / range (`from_all_objects` has none to keep) -/
+theorem read_arms_well_formed :
+    Gen.DbT.readAllObjects.all (DbTables.armOk false) = true ∧ Gen.DbT.readCount.all (DbTables.armOk true) = true ∧
+    Gen.DbT.readRange.all (DbTables.armOk true) = true :=
+  ⟨DbTables.readAllObjects_wf, DbTables.readCount_wf, DbTables.readRange_wf⟩
 
 /-! ## C03 — the event buffer -/
 
 /-- events are kept oldest first with strictly increasing ids below `next`: an invariant of
     every operation sequence from a fresh database -/
-theorem ordered_invariant (evMax : Nat) (sel : Option Nat) (ops : List DbOp) :
-    Ordered (run (Db.new evMax sel) ops) :=
-  ordered_run _ ops (new_ordered evMax sel)
+theorem ordered_invariant (ev : TyVec Nat) (cz : TyVec Bool) (sel : Option Nat) (ops : List DbOpX) :
+    Ordered (runX (Db.newCfg ev cz sel) ops) :=
+  ordered_runX _ ops (newCfg_ordered ev cz sel)
 
 /-- … and it is preserved by every single operation from any state that has it -/
-theorem ordered_preserved (db : Db) (op : DbOp) (h : Ordered db) : Ordered (step db op) :=
-  ordered_step db op h
+theorem ordered_preserved (db : Db) (op : DbOpX) (h : Ordered db) : Ordered (stepX db op) :=
+  ordered_stepX db op h
 
 example : Ordered (run (Db.new 2 none) [.add .binary 0 1, .update .binary 0 1 1 5, .update .binary 0 0 1 6]) := by
   decide
 
+/-- … for a mix of types with their own capacities (frozen counters 1, octet strings 2) -/
+example : Ordered (run (Db.newCfg ⟨0, 0, 0, 0, 1, 0, 0, 2⟩ (TyVec.const true) none)
+    [.add .frozenCounter 7 1, .add .octetString 0 2, .update .frozenCounter 7 5 1 5,
+     .update .octetString (encodeIdx .octetString 0) (natOfOctets [1, 2]) 0 0, .update .frozenCounter 7 6 1 6]) := by
+  decide
+
 /-- `total` (per class and per type) equals the number of records of that class / type: an
     invariant of every operation sequence, overflow included -/
-theorem total_exact_invariant (evMax : Nat) (sel : Option Nat) (ops : List DbOp) :
-    TotalExact (run (Db.new evMax sel) ops) :=
-  total_run _ ops (new_total evMax sel)
+theorem total_exact_invariant (ev : TyVec Nat) (cz : TyVec Bool) (sel : Option Nat) (ops : List DbOpX) :
+    TotalExact (runX (Db.newCfg ev cz sel) ops) :=
+  total_runX _ ops (newCfg_total ev cz sel)
 
 /-- `counters_exact`: `total` AND `written` counters equal the per-class / per-type counts of
     records / of `Written` records: an invariant of every operation sequence from a fresh database,
     the overflow of a `Written` record out of the buffer included (false before the repair of D3:
     `insert` left `written` too high) -/
-theorem counters_exact (evMax : Nat) (sel : Option Nat) (ops : List DbOp) :
+theorem counters_exact (ev : TyVec Nat) (cz : TyVec Bool) (sel : Option Nat) (ops : List DbOpX) :
+    CountersExact (runX (Db.newCfg ev cz sel) ops) :=
+  counters_runX _ ops (newCfg_counters ev cz sel)
+
+/-- … in particular of every sequence of the session model's operations, the configuration written as
+    the number `Db.new` takes -/
+theorem counters_exact_session (evMax : Nat) (sel : Option Nat) (ops : List DbOp) :
     CountersExact (run (Db.new evMax sel) ops) :=
   counters_run _ ops (new_counters evMax sel)
 
 /-- … and it is preserved by every single operation from any state that has it -/
-theorem counters_exact_preserved (db : Db) (op : DbOp) (h : CountersExact db) : CountersExact (step db op) :=
-  counters_step db op h
+theorem counters_exact_preserved (db : Db) (op : DbOpX) (h : CountersExact db) : CountersExact (stepX db op) :=
+  counters_stepX db op h
 
 /-- one step: every operation preserves `WrittenExact` (no side condition: an update that discards
     a `Written` record takes it out of `written` too) -/
-theorem written_exact_preserved (db : Db) (op : DbOp) (h : WrittenExact db) : WrittenExact (step db op) :=
-  written_step db op h
+theorem written_exact_preserved (db : Db) (op : DbOpX) (h : WrittenExact db) : WrittenExact (stepX db op) :=
+  written_stepX db op h
 
 /-- the former D3 witness: binary max 1, a class-1 event carried by an unsolicited response
     (`Written`), then a class-2 event of the same type overflows it out -/
@@ -209,32 +266,32 @@ example : (((((Db.new 1 none).add .binary 0 1).1.update .binary 0 1 1 5).1).inse
 
 /-- `class_bits_exact`: after every operation sequence from a fresh database `unwritten_classes`
     does not panic and bit c is set iff the buffer holds a class-c record that is not `Written` -/
-theorem class_bits_exact (evMax : Nat) (sel : Option Nat) (ops : List DbOp) :
-    ∃ b1 b2 b3, (run (Db.new evMax sel) ops).unwrittenClasses = some (b1, b2, b3) ∧
-      (b1 = true ↔ ∃ r ∈ (run (Db.new evMax sel) ops).events, r.cls = 1 ∧ r.st ≠ .written) ∧
-      (b2 = true ↔ ∃ r ∈ (run (Db.new evMax sel) ops).events, r.cls = 2 ∧ r.st ≠ .written) ∧
-      (b3 = true ↔ ∃ r ∈ (run (Db.new evMax sel) ops).events, r.cls = 3 ∧ r.st ≠ .written) :=
-  class_bits_exact_of_counters _ (counters_exact evMax sel ops)
+theorem class_bits_exact (ev : TyVec Nat) (cz : TyVec Bool) (sel : Option Nat) (ops : List DbOpX) :
+    ∃ b1 b2 b3, (runX (Db.newCfg ev cz sel) ops).unwrittenClasses = some (b1, b2, b3) ∧
+      (b1 = true ↔ ∃ r ∈ (runX (Db.newCfg ev cz sel) ops).events, r.cls = 1 ∧ r.st ≠ .written) ∧
+      (b2 = true ↔ ∃ r ∈ (runX (Db.newCfg ev cz sel) ops).events, r.cls = 2 ∧ r.st ≠ .written) ∧
+      (b3 = true ↔ ∃ r ∈ (runX (Db.newCfg ev cz sel) ops).events, r.cls = 3 ∧ r.st ≠ .written) :=
+  class_bits_exact_of_counters _ (counters_exact ev cz sel ops)
 
 /-- … and after every single operation from any state with exact counters -/
-theorem class_bits_exact_step (db : Db) (op : DbOp) (h : CountersExact db) :
-    ∃ b1 b2 b3, (step db op).unwrittenClasses = some (b1, b2, b3) ∧
-      (b1 = true ↔ ∃ r ∈ (step db op).events, r.cls = 1 ∧ r.st ≠ .written) ∧
-      (b2 = true ↔ ∃ r ∈ (step db op).events, r.cls = 2 ∧ r.st ≠ .written) ∧
-      (b3 = true ↔ ∃ r ∈ (step db op).events, r.cls = 3 ∧ r.st ≠ .written) :=
-  class_bits_exact_of_counters _ (counters_step db op h)
+theorem class_bits_exact_step (db : Db) (op : DbOpX) (h : CountersExact db) :
+    ∃ b1 b2 b3, (stepX db op).unwrittenClasses = some (b1, b2, b3) ∧
+      (b1 = true ↔ ∃ r ∈ (stepX db op).events, r.cls = 1 ∧ r.st ≠ .written) ∧
+      (b2 = true ↔ ∃ r ∈ (stepX db op).events, r.cls = 2 ∧ r.st ≠ .written) ∧
+      (b3 = true ↔ ∃ r ∈ (stepX db op).events, r.cls = 3 ∧ r.st ≠ .written) :=
+  class_bits_exact_of_counters _ (counters_stepX db op h)
 
 /-- `no_counter_underflow`: the checked subtraction `total - written` of `unwritten_classes`
     (`Count::subtract`) never underflows on a database reached from a fresh one by any operation
     sequence (`none` = the panic of the dev build) -/
-theorem no_counter_underflow (evMax : Nat) (sel : Option Nat) (ops : List DbOp) :
-    (run (Db.new evMax sel) ops).unwrittenClasses ≠ none := by
-  obtain ⟨b1, b2, b3, h, _⟩ := class_bits_exact evMax sel ops
+theorem no_counter_underflow (ev : TyVec Nat) (cz : TyVec Bool) (sel : Option Nat) (ops : List DbOpX) :
+    (runX (Db.newCfg ev cz sel) ops).unwrittenClasses ≠ none := by
+  obtain ⟨b1, b2, b3, h, _⟩ := class_bits_exact ev cz sel ops
   rw [h]; simp
 
 /-- … nor after any single operation from any state with exact counters -/
-theorem no_counter_underflow_step (db : Db) (op : DbOp) (h : CountersExact db) :
-    (step db op).unwrittenClasses ≠ none := by
+theorem no_counter_underflow_step (db : Db) (op : DbOpX) (h : CountersExact db) :
+    (stepX db op).unwrittenClasses ≠ none := by
   obtain ⟨b1, b2, b3, h', _⟩ := class_bits_exact_step db op h
   rw [h']; simp
 
@@ -270,25 +327,100 @@ theorem overflow_flag_frame (db : Db) (op : DbOp)
   | reset => rfl
 
 /-- with exact totals (always, `total_exact_invariant`) "some type at capacity" is a statement
-    about the records in the buffer -/
+    about the records in the buffer: some type with a non-zero maximum holds at least that many records -/
 theorem any_full_iff (db : Db) (h : TotalExact db) :
-    db.isAnyFull = true ↔ db.evMax ≠ 0 ∧
-      (db.evMax ≤ db.events.countP (fun r => r.ty == .binary) ∨ db.evMax ≤ db.events.countP (fun r => r.ty == .analog)) :=
+    db.isAnyFull = true ↔
+      ∃ t, db.evCfg.get t ≠ 0 ∧ db.evCfg.get t ≤ db.events.countP (fun r => r.ty == t) :=
   isAnyFull_iff db h
+
+/-- no type ever holds more events than its configured maximum, and the shared event list never more than
+    the sum of the maxima — the capacity the library gives its `VecList` (so that `VecList::add` cannot
+    fail, which `EventBuffer::insert` does not check) -/
+theorem type_capacity (ev : TyVec Nat) (cz : TyVec Bool) (sel : Option Nat) (ops : List DbOpX) (t : PtType) :
+    (runX (Db.newCfg ev cz sel) ops).events.countP (fun r => r.ty == t) ≤ ev.get t := by
+  have ht := total_exact_invariant ev cz sel ops
+  have hb := typeBounded_runX _ ops (newCfg_total ev cz sel) (newCfg_typeBounded ev cz sel) t
+  rw [evCfg_runX] at hb
+  have e : (runX (Db.newCfg ev cz sel) ops).total.ty t =
+      (runX (Db.newCfg ev cz sel) ops).events.countP (fun r => r.ty == t) := by
+    rw [ht, tallyBy_ty]; simp [anyRec]
+  rw [← e]; exact hb
+
+theorem events_within_capacity (ev : TyVec Nat) (cz : TyVec Bool) (sel : Option Nat) (ops : List DbOpX) :
+    (runX (Db.newCfg ev cz sel) ops).events.length ≤ (Gen.DbT.maxEventsSum.map fun t => ev.get t).sum :=
+  events_within_capacityX ev cz sel ops
+
+/-- frozen counters 1, counters 3: the second frozen-counter event discards the first although the
+    counter type has room (each type is bounded by ITS OWN maximum) -/
+example : ((runX (Db.newCfg ⟨0, 0, 0, 3, 1, 0, 0, 0⟩ (TyVec.const true) none)
+    [.addCfg .frozenCounter 0 1 1 1 0, .updateOpt .frozenCounter 0 (mkMeas .frozenCounter 5 1 10) {},
+     .updateOpt .frozenCounter 0 (mkMeas .frozenCounter 6 1 11) {}]).events.map (·.id)) = [1] := by decide
+
+/-! ## C03 / C02 — the event rule (dead-band) -/
+
+/-- `event_iff_beyond_deadband`: an update of an existing point in `EventMode::Detect` wants an event iff the
+    flags as reported changed or — for the types whose detector has a dead-band — the new value differs from
+    the value LAST REPORTED as an event by more than the point's dead-band (binary types: the reported flags
+    carry the state; octet strings: the octets differ); `Force` always does, `Suppress` never -/
+theorem event_iff_beyond_deadband (t : PtType) (p : Point) (m : Meas) :
+    (wantsEvent t p m .detect = true ↔
+      match Gen.DbT.detector t with
+      | .flags => p.lastEvent.wire t ≠ m.wire t
+      | .deadband => p.lastEvent.wire t ≠ m.wire t ∨ (m.value - p.lastEvent.value).natAbs > p.deadband
+      | .value => p.lastEvent.octets ≠ m.octets) ∧
+    wantsEvent t p m .force = true ∧ wantsEvent t p m .suppress = false :=
+  ⟨isEvent_iff t p.deadband p.lastEvent m, rfl, rfl⟩
+
+/-- … the update reports `created` / `overflow` exactly when an event is wanted, the point has an event
+    class and the type's buffer is not switched off … -/
+theorem update_creates_event_iff (db : Db) (t : PtType) (idx : Nat) (m : Meas) (o : UpdOpts) (p : Point)
+    (hp : pmLookup (db.map t) idx = some p) :
+    ((∃ id, (db.updateOpt t idx m o).2 = .created id) ∨ (∃ c d, (db.updateOpt t idx m o).2 = .overflow c d)) ↔
+      (wantsEvent t p m o.mode = true ∧ p.cls ≠ 0 ∧ db.evCfg.get t ≠ 0) :=
+  updateOpt_event_iff db t idx m o p hp
+
+/-- … and `last reported` (the detector's baseline `lastEvent`) becomes the new value exactly when an event
+    is wanted and is left alone otherwise; the static value follows `update_static`; nothing else of the
+    point, and no other point, changes -/
+theorem last_reported_moves_only_with_event (db : Db) (t : PtType) (idx : Nat) (m : Meas)
+    (o : UpdOpts) (p : Point) (hp : pmLookup (db.map t) idx = some p) :
+    ∃ p', pmLookup ((db.updateOpt t idx m o).1.map t) idx = some p' ∧
+      p'.lastEvent = (if wantsEvent t p m o.mode then m else p.lastEvent) ∧
+      p'.current = (if o.updateStatic then m else p.current) ∧
+      p'.selected = p.selected ∧ p'.cls = p.cls ∧ p'.svar = p.svar ∧ p'.evar = p.evar ∧ p'.deadband = p.deadband := by
+  obtain ⟨db0, p', he, hm, f1, f2, f3, f4, f5, f6, f7, _, h1 | ⟨_, _, h1⟩⟩ := updateOpt_point db t idx m o p hp
+  · refine ⟨p', ?_, f2, f1, f3, f4, f5, f6, f7⟩
+    rw [h1]; simp only []; rw [hm]
+    exact pmLookup_pmSet_same (db.map t) idx p p' hp
+  · refine ⟨p', ?_, f2, f1, f3, f4, f5, f6, f7⟩
+    rw [h1]; simp only []
+    have : (db0.insert idx p.cls t m p.evar).1.map t = db0.map t := by
+      rcases insert_cases db0 idx p.cls t m p.evar with ⟨_, hi⟩ | ⟨_, _, _, _, _, hi⟩ | ⟨_, _, hi⟩ <;> rw [hi] <;> rfl
+    rw [this, hm]
+    exact pmLookup_pmSet_same (db.map t) idx p p' hp
+
+/-- the drift of the property's example: dead-band 5, values 0 → 3 → 6: Created, NoEvent, Created — the third
+    value is 6 away from the value last REPORTED (0), although only 3 away from the previous update -/
+example :
+    let db0 := (((Db.newCfg (TyVec.const 10) (TyVec.const true) none).addCfg .analog 0 1 1 1 5).1.updateOpt .analog 0
+      (mkMeas .analog 0 1 100) {}).1
+    (db0.updateOpt .analog 0 (mkMeas .analog 3 1 101) {}).2 = .noEvent ∧
+    ((db0.updateOpt .analog 0 (mkMeas .analog 3 1 101) {}).1.updateOpt .analog 0 (mkMeas .analog 6 1 102) {}).2 =
+      .created 1 := by decide
 
 /-! ## C11 — the static database: READ series -/
 
 /-- the point maps are sorted by index (the `BTreeMap` order) in every reachable state -/
-theorem static_sorted_invariant (evMax : Nat) (sel : Option Nat) (ops : List DbOp) :
-    StaticSorted (run (Db.new evMax sel) ops) :=
-  sorted_run _ ops (new_sorted evMax sel)
+theorem static_sorted_invariant (ev : TyVec Nat) (cz : TyVec Bool) (sel : Option Nat) (ops : List DbOpX) :
+    StaticSorted (runX (Db.newCfg ev cz sel) ops) :=
+  sorted_runX _ ops (newCfg_sorted ev cz sel)
 
 /-- what a queued READ header stands for: every existing point of its range exactly once, in
     ascending index order, with the point's `selected` (snapshot) cell -/
 theorem selected_header_is_range (db : Db) (hs : StaticSorted db) (it : SelItem) :
     (itemObjs db it).Pairwise (fun a b => a.idx < b.idx) ∧
     (itemObjs db it).map (·.idx) = ((mapOf db it).filter (fun p => inRange it p.1)).map (·.1) ∧
-    (∀ var, it.kind = .binary var ∨ it.kind = .analog var →
+    (∀ k var, it.kind = .typed k var →
       (itemObjs db it).map (fun o => (o.idx, o.m)) =
         ((mapOf db it).filter (fun p => inRange it p.1)).map (fun p => (p.1, p.2.selected))) :=
   itemObjs_exactly_once db hs it
@@ -368,12 +500,19 @@ theorem series_is_snapshot_counterexample :
     (db2.writeResponse 300).2.2.2 = true := by
   decide
 
-/-- `progress`: when an object with its header fits (22 octets suffice for every variation of
-    the two modelled types), a response that is not complete carries at least one object — so a
-    series terminates (D15 concerns octet strings, which are not modelled) -/
-theorem progress (db : Db) (cap : Nat) (hcap : 22 ≤ cap) (hinc : (db.writeResponse cap).2.2.2 = false) :
+/-- `progress`: when every single object with its header fits the buffer (`FitsCap`: 22 octets suffice for
+    every fixed-size variation of the seven fixed-size types; an octet string needs its length + 7), a
+    response that is not complete carries at least one object — so a series terminates.  An octet string
+    that does not fit makes the series an endless run of empty fragments (D15) -/
+theorem progress (db : Db) (cap : Nat) (hfit : FitsCap db cap) (hinc : (db.writeResponse cap).2.2.2 = false) :
     (db.writeEvents cap).2.1 ≠ [] ∨ (writeStaticObjs db cap).flatten ≠ [] :=
-  write_progress db cap hcap hinc
+  write_progress db cap hfit hinc
+
+/-- … for a database without octet strings 22 octets are enough -/
+theorem progress_fixed (db : Db) (cap : Nat) (hcap : 22 ≤ cap) (hev : ∀ r ∈ db.events, r.ty ≠ .octetString)
+    (hpt : db.map .octetString = []) (hinc : (db.writeResponse cap).2.2.2 = false) :
+    (db.writeEvents cap).2.1 ≠ [] ∨ (writeStaticObjs db cap).flatten ≠ [] :=
+  write_progress_fixed db cap hcap hev hpt hinc
 
 /-- the hypothesis matters: with 5 octets nothing fits and the response is empty and incomplete -/
 example : ((((Db.new 0 none).add .analog 0 0).1.select { group := 60, var := 1, qual := 6 }).1.writeResponse 5).2
